@@ -162,6 +162,12 @@ Section Registry.
   (* [x for x, b in env.items() if x != skip and atoms[x] != H and b != 8] *)
   Definition end_subst (g : mol) (t skip : Z) : list Z :=
     map fst (filter (fun mb => negb (fst mb =? skip) && negb (is_h g (fst mb)) && negb (b_ord (snd mb) =? 8)) (nbrs g t)).
+  (* fix 2e29c31: any(b == 2 for m, b in env.items() if m != skip): one more double bond at the end atom *)
+  Definition end_more_double (g : mol) (t skip : Z) : bool :=
+    existsb (fun mb => negb (fst mb =? skip) && (b_ord (snd mb) =? 2)) (nbrs g t).
+  (* fix 2e29c31: sum(b != 8 for b in env.values()) > 3: hypervalent (non-planar) end atom *)
+  Definition end_crowded (g : mol) (t : Z) : bool :=
+    3 <? zlen (filter (fun mb => negb (b_ord (snd mb) =? 8)) (nbrs g t)).
   Definition second_of (l : list Z) : option Z :=
     if zlen l =? 2 then match l with [_; y] => Some y | _ => None end else None.
 
@@ -171,6 +177,8 @@ Section Registry.
     | t1 :: n1 :: _, t2 :: m1 :: _ =>
         if end_blocked g t1 n1 then []
         else if end_blocked g t2 m1 then []
+        else if end_more_double g t1 n1 || end_more_double g t2 m1 then []
+        else if end_crowded g t1 || end_crowded g t2 then []
         else match end_subst g t1 n1, end_subst g t2 m1 with
              | a :: ra, c :: rc => [(path, (a, c, second_of (a :: ra), second_of (c :: rc)))]
              | _, _ => []
